@@ -3,7 +3,7 @@
 From Coq Require Import List NArith ZArith Bool.
 From Abasic Require Import Model.Bytes Model.Num Model.Token Model.Data Model.Lexer Gen.Tables
      Model.State Model.Eval Model.Interp Proofs.Monad Proofs.Frames Proofs.StoreProofs Proofs.Safety Proofs.FlagsSim
-     Proofs.TurnProofs Proofs.TraceProofs.
+     Proofs.TurnProofs Proofs.TraceProofs Proofs.ExprSem Proofs.WarnProofs.
 Import ListNotations.
 
 (* [sim s t]: every field equal except the two flags, and the pending output
@@ -74,10 +74,36 @@ Theorem C17_no_trace_on_immediate : forall fuel s,
   exists new, outputs (snd (run_next_statement fuel s)) = outputs s ++ new /\ filter is_trace new = [].
 Proof. exact immediate_turn_untraced. Qed.
 
-(* Not proved here (validated by the correspondence, which compares the
-   Warning records themselves with the model's, and by the oracle): warnings
-   are issued exactly on reads of never-assigned variables / non-existent
-   arrays (C17_warn_exact). *)
+(* When a warning is issued (Proofs/WarnProofs.v).  [warn] is called at two
+   sites only.  At each, from ANY state: exactly one Warning record (with the
+   current line) is appended if warnings are on and the name was never assigned
+   / the array does not exist, none otherwise; it comes before the value; no
+   other field changes. *)
+Theorem C17_variable_read_warns : forall sym s,
+  variable_read sym s
+  = (Ok (match alist_get sym (variables s) with Some v => v | None => default_value sym end),
+     set_outputs (outputs s ++ warning_if (enable_warnings s && negb (alist_has sym (variables s)))
+                                          (undeclared_variable_msg sym) s) s).
+Proof. exact variable_read_warns. Qed.
+
+Theorem C17_array_touch_warns : forall name s,
+  maybe_warn_undeclared_array name s
+  = (Ok tt, set_outputs (outputs s ++ warning_if (enable_warnings s && negb (alist_has name (arrays s)))
+                                                  (undeclared_array_msg name) s) s).
+Proof. exact array_touch_warns. Qed.
+
+(* every expression term that is a variable token — not followed by "(" and
+   not a bound function parameter — is such a read *)
+Theorem C17_term_reads_variable : forall fuel (rec : M value) s toks sym i r o,
+  fst (cur_tokens s) = Ok toks -> nth_error toks i = Some (TSymbol sym) ->
+  (forall t, nth_error toks (S i) = Some t -> t <> TLeftParen) ->
+  find_in_frames sym (rev (stack s)) = None ->
+  expression_term fuel rec (at_idx s i r o) = variable_read sym (at_idx s (S i) (S (S r)) o).
+Proof. exact term_reads_variable. Qed.
+
+(* Whole-run exactness (every Warning record of a run corresponds to such a
+   read, in order) is validated by the correspondence, which compares the
+   Warning records themselves with the model's, and by the oracle. *)
 
 Print Assumptions C17_transparent.
 Print Assumptions C17_history.
@@ -87,3 +113,6 @@ Print Assumptions C17_cmds.
 Print Assumptions C17_trace_first.
 Print Assumptions C17_trace_is_path.
 Print Assumptions C17_no_trace_on_immediate.
+Print Assumptions C17_variable_read_warns.
+Print Assumptions C17_array_touch_warns.
+Print Assumptions C17_term_reads_variable.
